@@ -113,6 +113,12 @@ NODES = {
                            lambda: _n("iq", {"type": "result", "from": J, "id": "id1"}, [_n("picture", {"type": "image", "id": "1400000000"}, None, b"\xff\xd8jpegdata")]), ()),
     "ResultGetPictureIq-preview": ("protocol_profiles.protocolentities.iq_picture_get_result.ResultGetPictureIqProtocolEntity", "in",
                                    lambda: _n("iq", {"type": "result", "from": J, "id": "id1"}, [_n("picture", {"type": "preview", "id": "1400000000"}, None, b"\xff\xd8jpegdata")]), ()),
+    "ListGroupsResultIq-with-participants": ("protocol_groups.protocolentities.iq_result_groups_list.ListGroupsResultIqProtocolEntity", "in",
+                                             lambda: _n("iq", {"type": "result", "from": "g.us", "id": "id1"}, [_n("groups", {}, [
+                                                 _n("group", {"s_t": "1400000005", "creation": "1400000000", "creator": J, "id": "4915901234567-1400000000", "s_o": J2, "subject": "one"},
+                                                    [_n("participant", {"jid": J, "type": "admin"}), _n("participant", {"jid": J2})]),
+                                                 _n("group", {"s_t": "1500000005", "creation": "1500000000", "creator": J2, "id": "4915907654321-1500000000", "s_o": J, "subject": "two"},
+                                                    [_n("participant", {"jid": J2, "type": "admin"})])])]), ("from",)),
     "SubjectGroupsNotification": ("protocol_groups.protocolentities.notification_groups_subject.SubjectGroupsNotificationProtocolEntity", "in",
                                   lambda: _n("notification", {"notify": "WhatsApp", "id": "id1", "t": "1400000000", "participant": J, "from": G, "type": "w:gp2", "offline": "0"},
                                              [_n("subject", {"s_t": "1400000005", "s_o": J2, "subject": "new subj"})]), ()),
